@@ -604,7 +604,7 @@ add('c15-substances-kept-in-an-attribute', ['C15', 'C10', 'C04'], 'fire', 'Conta
     "if getattr(self, '_substances', None) is None:\n        self._substances = set(self.contents.keys())\n    return self._substances",
     'the set travels with deepcopy: a copy whose contents changed answers with the old substances')
 add('c06-class-attribute-only-read', ['C06', 'C14', 'C18'], 'silent', 'Unit.convert_prefix_to_multiplier',
-    "if not isinstance(prefix, str):", "getattr(Unit, 'convert', None)\n    if not isinstance(prefix, str):",
+    "if not isinstance(prefix, str):", "_ = Unit.convert\n    if not isinstance(prefix, str):",
     'silent twin of the next: reading a class attribute is no state')
 add('c06-results-kept-on-the-class', ['C06', 'C14', 'C18'], 'fire', 'Unit.convert_prefix_to_multiplier',
     "if not isinstance(prefix, str):", "Unit._seen = getattr(Unit, '_seen', {})\n    Unit._seen[prefix] = True\n    if not isinstance(prefix, str):",
@@ -659,3 +659,16 @@ add('c05-contents-dropped-on-zero-volume', ['C05', 'C10'], 'fire', 'Container._t
     'to.volume = 0\n    for substance, amount in to.contents.items():',
     'if to.volume == 0:\n        to.contents = {}\n    to.volume = 0\n    for substance, amount in to.contents.items():',
     'solids configured to take no volume are discarded')
+add('c10-plate-volume-from-stored-fields', ['C10', 'C18'], 'fire', 'Plate.get_volume',
+    'return self.get_volumes(unit=unit).sum()',
+    "if unit == 'uL':\n        return sum(well.volume for well in self.wells.flatten())\n    return self.get_volumes(unit=unit).sum()",
+    'the stored volume is in the storage unit, whatever that is configured to be')
+add('c01-emptied-source-handed-over-wholesale', ['C01', 'C12', 'C02'], 'fire', 'Container._transfer',
+    'source_container, to = (deepcopy(source_container), deepcopy(self))',
+    'source_container, to = (deepcopy(source_container), deepcopy(self))\n    if ratio == 1:\n        to.contents.update(source_container.contents)',
+    'what the destination held of the same substances is overwritten')
+add('c12-solvent-container-taken-for-pure', ['C12'], 'fire', 'Container.create_solution_from',
+    "m_y = Unit.convert_from_storage(solvent.contents.get(solute, 0), 'mol') / (volume / 1000)", 'm_y = 0',
+    'the solute a solvent container already holds is ignored')
+add('c01-single-well-list-through-get', ['C01', 'C07'], 'fire', 'PlateSlicer._transfer',
+    "if frm.shape != (1, 1):\n            raise RuntimeError('Shape of source should have been (1, 1)')", 'pass', 'a one-element list of wells is a copy: the write is lost')
